@@ -30,6 +30,9 @@ def cases(tier, seed):
     for i in range(n):
         (il0, ils), (xl0, xls) = axes[i % len(axes)]
         nI, nX, nZ = rng.choice([(5, 4, 7), (9, 11, 13), (6, 6, 8), (4, 9, 5), (8, 5, 12)])
+        if i % 8 == 6:
+            # header arrays that fill their 512-byte footer pages exactly (trace count a multiple of 128)
+            nI, nX, nZ = [(8, 16, 6), (16, 8, 5)][(i // 8) % 2]
         # 'to0': a descending axis whose last line is numbered 0 (0 is an existing coordinate that is not the first one)
         il0 = -ils * (nI - 1) if il0 == 'to0' else il0
         xl0 = -xls * (nX - 1) if xl0 == 'to0' else xl0
@@ -113,7 +116,9 @@ def gen_exprs(src, rng, n):
     ex += ordinal_exprs('trace', nI * nX, rng, 10)
     ex += ordinal_exprs('header', nI * nX, rng, 8, wrap='dict(%s)')
     varying = [k for k in KEYS if not np.all(src['headers'][k] == src['headers'][k][0])]
-    for k in rng.sample(varying, min(3, len(varying))) + [189, 193]:
+    # ... and header words that have one value on every trace (segyio gives an array of that value)
+    invariant = [k for k in KEYS if k not in varying and k not in (189, 193)]
+    for k in rng.sample(varying, min(3, len(varying))) + [189, 193] + rng.sample(invariant, min(2, len(invariant))):
         nT = nI * nX
         a, b = sorted((rng.randrange(nT), rng.randrange(nT + 1)))
         ex += [('f.attributes(%d)[:]' % k, 'attributes[:]'), ('f.attributes(%d)[%d:%d]' % (k, a, b), 'attributes[a:b]'),
@@ -242,7 +247,7 @@ def run_case(case, ctx):
                         bad.append({'sig': 'emulation:subvolume[a:b:c]:result-differs', 'detail': '%s: shape %s want %s' % (sl, got.shape, want)})
                 except Exception as e:  # noqa
                     bad.append({'sig': 'emulation:subvolume[a:b:c]:raises-%s' % type(e).__name__, 'detail': '%s: %r' % (sl, e)})
-    return {'violations': bad, 'counters': {'expressions': n}, 'strata': ['axes:' + dirs, 'interval-hdr:%s' % case['src'].get('interval_hdr')] + sorted('form:' + f for f in forms),
+    return {'violations': bad, 'counters': {'expressions': n}, 'strata': ['axes:' + dirs, 'interval-hdr:%s' % case['src'].get('interval_hdr'), 'footer-pages:%s' % ('exact' if (4 * nI * nX) % 512 == 0 else 'partial')] + sorted('form:' + f for f in forms),
             'key': case['id'], 'forms': sorted(forms)}
 
 
@@ -250,7 +255,7 @@ def finalize(tier, cases, results, counters, strata):
     reasons = []
     need = ['axes:ilasc,xlasc', 'axes:ildesc,xlasc', 'axes:ildesc,xldesc', 'form:line[present]:asc', 'form:line[present]:desc', 'form:line[absent]:asc', 'form:line[:]:asc',
             'form:line[:]:desc', 'form:iter(line):asc', 'form:iter(line):desc', 'form:depth_slice[int]', 'form:trace[slice]', 'form:header[slice]', 'form:attributes[a:b]',
-            'form:bin', 'form:text[0]', 'form:tools.dt', 'form:tools.cube', 'form:subvolume[a:b:c]', 'form:subvolume[bound=0]', 'interval-hdr:bin-zero', 'interval-hdr:bin-differs', 'interval-hdr:trace-zero']
+            'form:bin', 'form:text[0]', 'form:tools.dt', 'form:tools.cube', 'form:subvolume[a:b:c]', 'form:subvolume[bound=0]', 'interval-hdr:bin-zero', 'interval-hdr:bin-differs', 'interval-hdr:trace-zero', 'footer-pages:exact']
     for s in need:
         if s not in strata:
             reasons.append('required stratum not hit: ' + s)
